@@ -498,6 +498,8 @@ def main(pid, tier, repo=None):
         rule_partial_polarity(ctx)
         rule_drop(ctx)
         rule_deferred_first(ctx)
+    from . import c09 as _c09
+    _c09.rule_preview_len(ctx)
     from . import fixguards
     fixguards.run(ctx, pid)
     ctx.not_decided("that a partial section decodes to a correct partial image; allow_partial value computations; equality of the final result")
